@@ -93,6 +93,14 @@ check("C08",
       "a 1-D grouped reduction by TraceReduce.tla.",
       TB, "trace validation of every slice of N-D results against the 1-D reference + TLC offsets model", "DESIGN.md section 5 C08")
 
+check("C09",
+      "MC_Cohorts: find_group_cohorts transcribed step by step (Cohorts.tla, incl. the dictionary keyed by block unions) satisfies partition / cover / "
+      "blockwise-only-if-confined for ALL incidence matrices up to 4x4 | 5x4 and both merge values; the REAL planner is run on every matrix of the same "
+      "space (+ padded chunks, five/six-chunk matrices, 2x2 chunk grids) and validated by TraceCohorts.tla against the property relation (differences from "
+      "the transcription are DRIFT only); dependency closures of real graphs of every strategy are checked in Exec.tla (CountedOnce, ClosureSound); base-4 "
+      "provenance sums are validated by TraceReduce.tla.",
+      TB, "TLC on the transcribed planner (exhaustive matrices) + trace validation of the real planner + closures of real graphs in TLC", "DESIGN.md section 5 C09")
+
 ALL = [f"C{n:02d}" for n in range(1, 21)]
 
 def main():
